@@ -87,6 +87,20 @@ class VPoolEmpty(VPool):
         return 0
 
 
+class Site:
+    """A namespace class: the recording classes are also reachable two attributes below the module (vplug.Site.VDeco)."""
+
+
+def _build(cls, *args, **kwargs):
+    """An alternative constructor (vplug.VDeco.build)."""
+    return cls(*args, **kwargs)
+
+
+for _cls in (VCtrl, VDeco, VDeco2, VDecoFalsy, VPool, VPoolEmpty):
+    setattr(Site, _cls.__name__, _cls)
+    _cls.build = classmethod(_build)
+
+
 @yaml_tag(eager=True)
 def make_pool_now(*args, **kwargs):
     """A tag registered as a plain factory: the pool is built while the YAML is read."""
